@@ -235,3 +235,29 @@ Example time_collect_ex :
   /\ time_resolve_edges Z [Ok (Sync [1]); Ok (Promise (Err EApp)); Ok (Promise (Ok [2]))] = Ok (Promise (Err EApp))
   /\ time_resolve_edges Z [Ok (Promise (Ok [2])); Err EApp] = Err EApp.
 Proof. vm_compute. repeat split; reflexivity. Qed.
+
+(** the recursive Skip: [[[nil]], 7] is skipped with frames stacked 4 deep (array, array, array,
+    nil), the counting transcription gives the same rest; a truncated container is an error in both *)
+Example skip_depth_ex :
+  skip_depth 10 1 [146; 145; 145; 192; 7; 99]%N = DkOk [99%N] 4
+  /\ mp_skip 10 1 [146; 145; 145; 192; 7; 99]%N = SkOk [99%N]
+  /\ skip_depth 10 1 [146; 145; 145; 192]%N = DkErr /\ mp_skip 10 1 [146; 145; 145; 192]%N = SkErr
+  /\ skip_depth 2 1 [146; 145; 145; 192; 7; 99]%N = DkOutOfFuel.
+Proof. vm_compute. repeat split; reflexivity. Qed.
+
+(** [C09_arbitrary_cursor] applies to the five-edge instance: any counts, any strings *)
+Example arbitrary_by_theorem : forall ar sel,
+  serve_f cursor edge cursor_ltb ecur cursor_encode_f (cursor_decode KInt) sel app_window ar <> FError EPanicked.
+Proof.
+  intros ar sel.
+  exact (proj1 (proj2 (arbitrary_cursor_codec edge ecur KInt app_window edges conn window_ok_ex cursors_ok ar sel))).
+Qed.
+Example arbitrary_ex :
+  (* a hostile string that happens to decode (positive fixnum 25: between the edges 20 and 30) is a position *)
+  serve_f cursor edge cursor_ltb ecur cursor_encode_f (cursor_decode KInt) false app_window
+    {| a_first := Some 1; a_last := None; a_after := Some [71; 81]%N; a_before := None |}
+  = FData [([], e 30 103)] (Ok {| sp_prev := false; sp_next := true; sp_start := cur_str 30; sp_end := cur_str 30 |}) (Ok 5)
+  (* one that does not is the error of its argument *)
+  /\ serve_f cursor edge cursor_ltb ecur cursor_encode_f (cursor_decode KInt) false app_window
+    {| a_first := Some 1; a_last := None; a_after := None; a_before := Some [33]%N |} = FError EInvalidBefore.
+Proof. vm_compute. split; reflexivity. Qed.
